@@ -854,6 +854,60 @@ func c33AllocPhase(r *verifmc.Report, decs []C33Decoder, cfg C33Config, sp *c33S
 		}
 		return best
 	}
+	// bigAllocInDecodeBytes: which function made the allocation that breaks the bound?  The runtime's memory profile (every allocation recorded
+	// for the duration of one run) is read before and after one
+	// more run of the input (single-threaded phase) and the stack with the largest growth is looked at.
+	// Used only to NAME the shape (the listed finding is "decodeBytes allocates the declared length").
+	bigAllocInDecodeBytes := func(in *c33Input) bool {
+		snapshot := func() map[[32]uintptr]int64 {
+			runtime.GC()
+			runtime.GC()
+			n, _ := runtime.MemProfile(nil, true)
+			recs := make([]runtime.MemProfileRecord, n+64)
+			n, ok := runtime.MemProfile(recs, true)
+			if !ok {
+				return nil
+			}
+			m := map[[32]uintptr]int64{}
+			for _, rc := range recs[:n] {
+				m[rc.Stack0] += rc.AllocBytes
+			}
+			return m
+		}
+		before := snapshot()
+		oldRate := runtime.MemProfileRate
+		runtime.MemProfileRate = 1 // record every allocation of this one run
+		run(in)
+		runtime.MemProfileRate = oldRate
+		after := snapshot()
+		if before == nil || after == nil {
+			return false
+		}
+		var top [32]uintptr
+		var topDelta int64
+		for st, b := range after {
+			if d := b - before[st]; d > topDelta {
+				top, topDelta = st, d
+			}
+		}
+		if topDelta < 64<<10 {
+			return false
+		}
+		n := 0
+		for n < len(top) && top[n] != 0 {
+			n++
+		}
+		frames := runtime.CallersFrames(top[:n])
+		for {
+			f, more := frames.Next()
+			if strings.Contains(f.Function, "pkg/scale.(*decodeState).decodeBytes") {
+				return true
+			}
+			if !more {
+				return false
+			}
+		}
+	}
 	const batch = 32
 	var maxSeen uint64
 	sel := make([]*c33Input, batch)
@@ -904,10 +958,18 @@ func c33AllocPhase(r *verifmc.Report, decs []C33Decoder, cfg C33Config, sp *c33S
 				cls := "input"
 				if strings.HasPrefix(in.shape, "crafted") {
 					cls = in.shape[strings.Index(in.shape, ":")+1:]
+					if cls == "scale-bytes-len" {
+						// self-check of the site detector on inputs whose shape is known by construction
+						r.Outcome(fmt.Sprintf("alloc-site-detector-on-crafted-scale-bytes-len:decodeBytes=%t", bigAllocInDecodeBytes(in)))
+					}
 				} else if d.Name == "BlockResponseMessage.Decode" && c33BodyEntryDeclaresMore(in.data) {
 					// the protobuf framing (as this input has it) hands the SCALE decoder a body entry whose
 					// compact length prefix declares more bytes than the entry holds: the same shape as a
 					// crafted SCALE length, reached through a changed protobuf length or tag byte
+					cls = "scale-bytes-len"
+				} else if cls == "input" && bigAllocInDecodeBytes(in) {
+					// the allocation that breaks the bound is made by scale's decodeBytes: a declared byte-string
+					// length reached through a changed neighbouring byte (tag, count, variant index)
 					cls = "scale-bytes-len"
 				}
 				r.Violate(d.Name+":allocation-not-proportional-to-input:"+cls,
